@@ -24,14 +24,14 @@ def run(ctx, rep):
         allocator(prog, rep, tag)
 
 
-def tx_lets_go(prog, rep, sites, tag):
+def tx_lets_go(prog, rep, sites, tag, P0="C03"):
     """A request can expire (and its slot be released, even re-allocated) while the transmit side is still
     inside send_blocking.  Whatever the transmit side then writes to the slot state must be conditional on
     the slot still being in Sending - a plain store would leave the slot in Sent/Sendable with no owner:
     no Drop, timeout or response ever returns it to None and the capacity is lost for good."""
-    P = "C03.tx"
+    P = P0 + ".tx"
     mine = [s for s in sites if s["fn"].startswith("SendableFrame::")]
-    rep.floor("C03 transmit-side state changes" + tag, len(mine), 2)
+    rep.floor(P0 + " transmit-side state changes" + tag, len(mine), 2)
     for s in mine:
         ok = s["kind"] == "cas" and s["frm"] == "Sending"
         rep.ob(P, "conditional:%s->%s%s" % (s["fn"], s["to"], tag), ok,
